@@ -127,6 +127,17 @@ def unique_sym(ar, *args, **kwargs):
     return np.array(sorted(present))
 
 
+def _is_object(*xs):
+    """exact rationals (Fractions) in object arrays: numpy's predicates reject object dtype altogether"""
+    for x in xs:
+        try:
+            if np.asarray(x).dtype == object:
+                return True
+        except Exception:
+            return True
+    return False
+
+
 class NpStub:
     """Stands in for the `np` global of one module: only `unique` differs."""
 
@@ -140,7 +151,7 @@ class NpStub:
 
     # tolerant comparisons / predicates on proxies (numpy's own versions reject object dtype)
     def isclose(self, a, b, rtol=1e-05, atol=1e-08, equal_nan=False):
-        if not has_sym(a, b):
+        if not (has_sym(a, b) or _is_object(a, b)):
             return self._real.isclose(a, b, rtol=rtol, atol=atol, equal_nan=equal_nan)
         if np.ndim(a) == 0 and np.ndim(b) == 0:
             if core._is_nonfinite(a) or core._is_nonfinite(b):
@@ -153,18 +164,43 @@ class NpStub:
         return bool(np.all(self.isclose(a, b, rtol, atol)))
 
     def isfinite(self, x):
-        if not has_sym(x):
+        if not (has_sym(x) or _is_object(x)):
             return self._real.isfinite(x)
         if np.ndim(x) == 0:
-            return True
-        return np.array([True if is_sym(v) else bool(np.isfinite(v)) for v in np.asarray(x, dtype=object).ravel()]).reshape(np.shape(x))
+            return True if is_sym(x) else bool(np.isfinite(float(x)))
+        return np.array([True if is_sym(v) else bool(np.isfinite(float(v))) for v in np.asarray(x, dtype=object).ravel()]).reshape(np.shape(x))
 
     def isnan(self, x):
-        if not has_sym(x):
+        if not (has_sym(x) or _is_object(x)):
             return self._real.isnan(x)
         if np.ndim(x) == 0:
-            return False
-        return np.array([False if is_sym(v) else bool(np.isnan(v)) for v in np.asarray(x, dtype=object).ravel()]).reshape(np.shape(x))
+            return False if is_sym(x) else bool(np.isnan(float(x)))
+        return np.array([False if is_sym(v) else bool(np.isnan(float(v))) for v in np.asarray(x, dtype=object).ravel()]).reshape(np.shape(x))
+
+
+class NpPredStub(NpStub):
+    """numpy with proxy-aware predicates only (np.unique untouched): safe to install in any module"""
+
+    unique = staticmethod(np.unique)
+
+
+def install_np_predicates():
+    """numpy's isclose / allclose / isfinite / isnan raise TypeError on object arrays that hold proxies.  Code under test that calls them (today or after a
+    change) would crash the exploration instead of being explored, so every fairlearn module that refers to numpy as `np` gets a numpy whose predicates
+    accept proxies (identical to numpy on ordinary input).  Modules that already have a stub keep it."""
+    import importlib
+
+    for sub in ("metrics", "reductions", "postprocessing", "preprocessing", "adversarial", "utils"):
+        try:
+            importlib.import_module(f"fairlearn.{sub}")
+        except Exception:
+            pass
+    n = 0
+    for name, mod in list(sys.modules.items()):
+        if name.startswith("fairlearn.") and getattr(mod, "np", None) is np:
+            mod.np = NpPredStub(np)
+            n += 1
+    return n
 
 
 _installed = {}
